@@ -8,10 +8,21 @@ import asyncio
 import asyncio.events as events
 import gc
 import heapq
+import signal
 import threading
 
 
+class StepTimeout(KeyboardInterrupt):
+    """A single callback ran longer than the watchdog allows (busy loop)."""
+
+
+def _on_alarm(signum, frame):
+    raise StepTimeout()
+
+
 class VLoop(asyncio.BaseEventLoop):
+    watchdog = 0
+
     def __init__(self):
         super().__init__()
         self._vtime = 1000.0
@@ -83,7 +94,15 @@ class VLoop(asyncio.BaseEventLoop):
         handle = self._ready.popleft()
         if not handle._cancelled:
             self.steps += 1
-            handle._run()
+            if self.watchdog:
+                signal.signal(signal.SIGALRM, _on_alarm)
+                signal.setitimer(signal.ITIMER_REAL, self.watchdog)
+                try:
+                    handle._run()
+                finally:
+                    signal.setitimer(signal.ITIMER_REAL, 0)
+            else:
+                handle._run()
         handle = None
 
     def drain(self, limit=100000):
